@@ -147,12 +147,15 @@ class Ctx:
         return r
 
     # -------------------------------------------------------------- harness
-    def build_harness(self, race=False):
+    def build_harness(self, race=False, tags=()):
+        """tags: optional gadget-level drivers (g_keccak, g_poseidon, g_bits, g_merkle) that depend on the internal gadget structs;
+        they are compiled only into the binaries of the checks that need them, so that a refactoring of one gadget's API cannot
+        take down the harness of unrelated checks."""
         with self._build_lock:
-            return self._build_harness(race)
+            return self._build_harness(race, tuple(tags))
 
-    def _build_harness(self, race=False):
-        key = "vh-race" if race else "vh"
+    def _build_harness(self, race=False, tags=()):
+        key = ("vh-race" if race else "vh") + "".join("-" + t for t in tags)
         out = os.path.join(self.scratch, key)
         if os.path.exists(out):
             return out
@@ -166,7 +169,7 @@ class Ctx:
                     fh.write("\n".join(sorted(have | need)) + "\n")
         except OSError:
             pass
-        cmd = ["go", "build", "-tags", "verif"] + (["-race"] if race else []) + ["-o", out, "./cmd/vh"]
+        cmd = ["go", "build", "-tags", ",".join(("verif",) + tuple(tags))] + (["-race"] if race else []) + ["-o", out, "./cmd/vh"]
         env = goenv()
         if race:
             env["CGO_ENABLED"] = "1"
@@ -199,10 +202,10 @@ class Ctx:
             raise Infra("gnark-mbu build failed:\n" + r.stdout + r.stderr)
         return out
 
-    def run_vh(self, args, cases=None, timeout=1800, env_extra=None, race=False, allow_crash=False):
+    def run_vh(self, args, cases=None, timeout=1800, env_extra=None, race=False, allow_crash=False, tags=()):
         """Run a harness sub-command; `cases` (any JSON value) is passed as a file. Returns parsed
         JSON lines written by the harness on stdout (lines starting with '{')."""
-        vh = self.build_harness(race=race)
+        vh = self.build_harness(race=race, tags=tags)
         cmd = [vh] + list(args)
         if cases is not None:
             p = tempfile.mktemp(prefix="cases-", suffix=".json", dir=self.scratch)
